@@ -21,9 +21,9 @@ var intrinsics = map[string]bool{
 	"math.Trunc": true, "math.Sqrt": true, "math.Float64bits": true, "math.Float64frombits": true, "math.Inf": true, "math.NaN": true,
 	"math.Copysign": true, "math.Max": false, "math.Min": false, "math.RoundToEven": true, "math.Round": true,
 	"strings.HasPrefix": true, "strings.HasSuffix": true,
-	"(*sync.Mutex).Lock": true, "(*sync.Mutex).Unlock": true, "(*sync.RWMutex).Lock": true, "(*sync.RWMutex).Unlock": true,
-	"(*sync.RWMutex).RLock": true, "(*sync.RWMutex).RUnlock": true,
-	"(*sync.WaitGroup).Add": true, "(*sync.WaitGroup).Done": true, "(*sync.WaitGroup).Wait": true,
+	"sync.(*Mutex).Lock": true, "sync.(*Mutex).Unlock": true, "sync.(*RWMutex).Lock": true, "sync.(*RWMutex).Unlock": true,
+	"sync.(*RWMutex).RLock": true, "sync.(*RWMutex).RUnlock": true,
+	"sync.(*WaitGroup).Add": true, "sync.(*WaitGroup).Done": true, "sync.(*WaitGroup).Wait": true,
 }
 
 func (g *Gen) isIntrinsic(fn *ssa.Function) bool {
@@ -107,7 +107,14 @@ func (f *Frame) intrinsic(name string, args []Val, rt types.Type) (Val, bool) {
 		sub := g.strSub(s, g.isub(app("gstr.len", s), app("gstr.len", p)), app("gstr.len", s))
 		return g.boolVal(and(g.icmp("<=", app("gstr.len", p), app("gstr.len", s), true), eq(sub.S, p))), true
 	}
-	if strings.HasPrefix(name, "(*sync.") {
+	if name == "sync.(*WaitGroup).Wait" && len(args) == 1 {
+		// ghost: remember that this wait group has been waited on
+		g.ensureKey("G|waited", "Bool")
+		f.cur.set("G|waited", app("store", f.cur.get("G|waited"), args[0].S, "true"))
+		g.Assumptions["sync.WaitGroup.Wait is modelled by a ghost flag (waited); happens-before guarantees are those of the Go memory model"] = true
+		return Val{Sort: "Tuple"}, true
+	}
+	if strings.HasPrefix(name, "sync.(*") {
 		g.Assumptions["sync primitives: no effect on the modelled heap; ordering guarantees not modelled here"] = true
 		return Val{Sort: "Tuple"}, true
 	}
